@@ -630,6 +630,19 @@ def _x4(run: Run, S: dict, M: dict) -> None:
                 return dict(base.coords)
             if isinstance(base, _XSys) and attr == "base_scalars":
                 return [sv(base.tag, k) for k in range(3)]
+            if isinstance(base, T) and attr in ("is_extended_real", "is_real"):
+                # SymPy's three-valued assumption query. The generic coordinates p0..p2 are symbols without assumptions (what symplyphysics.Symbol gives):
+                # nothing is known about an expression in them - None, which is falsy. A number is real.
+                def leaves(t_):
+                    if t_.op in ("var", "fun"):
+                        return [t_]
+                    return [x_ for a_ in t_.args for x_ in leaves(a_)]
+                lv = leaves(base)
+                if not lv:
+                    return True
+                if all(x_.op == "var" and str(x_.val) in ("p0", "p1", "p2") for x_ in lv) and not (base.op == "app" and str(base.val) in ("Abs", "re", "im", "arg")):
+                    return None
+                self.fail(n, f".{attr} of a coordinate built from symbols with assumptions")
             return NotImplemented
 
         def hook_method(self, base, attr, args, kwargs, n):
